@@ -211,7 +211,7 @@ func c13Child(raw json.RawMessage) any {
 	}
 	waitConsumed := func(n int) {
 		dl := time.Now().Add(10 * time.Second)
-		for cons.count() < n && time.Now().Before(dl) {
+		for cons.count() < n && !deadlinePassed(dl) {
 			time.Sleep(200 * time.Microsecond)
 		}
 	}
@@ -255,7 +255,7 @@ func c13Child(raw json.RawMessage) any {
 	closeNow := func() {
 		if sc.PingFails && sc.Health && client == couchbase.Client(cl) {
 			pingFailing.Store(true)
-			for dl := time.Now().Add(2 * time.Second); failedPings.Load() == 0 && time.Now().Before(dl); {
+			for dl := time.Now().Add(2 * time.Second); failedPings.Load() == 0 && !deadlinePassed(dl); {
 				time.Sleep(200 * time.Microsecond)
 			}
 			res.PingFailedBeforeClose = failedPings.Load() > 0
@@ -312,7 +312,7 @@ func c13Child(raw json.RawMessage) any {
 					resp.Body.Close()
 				}
 			}()
-			for dl := time.Now().Add(3 * time.Second); !arrived.Load() && time.Now().Before(dl); {
+			for dl := time.Now().Add(3 * time.Second); !arrived.Load() && !deadlinePassed(dl); {
 				time.Sleep(200 * time.Microsecond)
 			}
 			if arrived.Load() {
@@ -349,7 +349,7 @@ func c13Child(raw json.RawMessage) any {
 	case "consumer_blocked":
 		consumeBlock = make(chan struct{})
 		go feed(0, "block")
-		for dl := time.Now().Add(10 * time.Second); !blockedIn.Load() && time.Now().Before(dl); {
+		for dl := time.Now().Add(10 * time.Second); !blockedIn.Load() && !deadlinePassed(dl); {
 			time.Sleep(200 * time.Microsecond)
 		}
 		t0 = time.Now()
@@ -523,6 +523,25 @@ func c13Child(raw json.RawMessage) any {
 	}
 	res.WritesAfter -= w0
 	fm.mu.Unlock()
+	if res.WritesAfter > 0 {
+		// the schedule's loop may have been asleep when it was stopped: it wakes once more and saves (the late acknowledgements
+		// above) - on a busy machine later than the grace. A schedule that was NOT stopped goes on calling the store every
+		// interval: what counts is a second window of the same length
+		fm.mu.Lock()
+		w1 := len(fm.calls)
+		for _, c := range fm.calls {
+			w1 += len(c.Written)
+		}
+		fm.mu.Unlock()
+		time.Sleep(3*maxInterval + 100*time.Millisecond)
+		fm.mu.Lock()
+		res.WritesAfter = len(fm.calls)
+		for _, c := range fm.calls {
+			res.WritesAfter += len(c.Written)
+		}
+		res.WritesAfter -= w1
+		fm.mu.Unlock()
+	}
 	cl.mu.Lock()
 	res.PingsAfter, res.OpensAfter = len(cl.pings)-p0, len(cl.opens)-o0
 	res.CloseStreams, res.DcpClose, res.ClientClose = len(cl.closes), cl.dcpClose, cl.close
